@@ -175,6 +175,11 @@ def _finish_fn(item, sig, body, sig_line, body_line, qual, impl_header, relfile,
     name = item['name']
     rules = list(item.get('rules', []))
     from . import rules as RL4
+    for hname, hinfo in INLINE.items():
+        try:
+            body = RL4.inline_helper_calls(body, hname, hinfo['params'], hinfo['body'], hinfo['has_self'], log, body_line, qual)
+        except RL4.UnsupportedConstruct as e:
+            raise ExtractError('unsupported construct in %s: %s' % (qual, e))
     body = RL4.r4_option_combinators(body, log, body_line, qual)
     if item.get('engine') and item.get('r3'):
         from . import rules as RL
@@ -541,8 +546,13 @@ def find_pure_helper(unit, name, repo=None):
             if in_trait or (impl is None and re.search(r'\(\s*&?\s*self\b', sig)):
                 # provided trait methods and anything with a receiver outside an inherent impl cannot be pulled in on their own
                 continue
+            po = sig.index('(')
+            plist = [x.strip() for x in sig[po + 1:rustsrc.match_close(sig, po)].split(',') if x.strip()]
+            has_self = bool(plist) and re.match(r'&?\s*self$', plist[0].replace(' ', '')) is not None
+            pnames = [x.split(':')[0].strip() for x in plist if ':' in x]
             d = dict(kind='fn', file=f, name=name, label='helper::%s' % name, rules=list(RL.R5), ret='r', auto_helper=True,
-                     ensures=[('is_its_body', [], 'r == (%s)' % spec)])
+                     ensures=[('is_its_body', [], 'r == (%s)' % spec)],
+                     inline=dict(params=pnames, body=expr1, has_self=has_self))
             if impl:
                 d['impl'] = impl
                 donor = next((x for x in unit['items'] if x.get('kind') == 'fn' and x.get('file') == f and x.get('impl_rules')), None)
@@ -552,7 +562,12 @@ def find_pure_helper(unit, name, repo=None):
     return None
 
 
-def generate(unit_name, repo=None, force_stub=(), workdir=None, extra_helpers=()):
+INLINE = {}
+
+
+def generate(unit_name, repo=None, force_stub=(), workdir=None, extra_helpers=(), inline_helpers=None):
+    INLINE.clear()
+    INLINE.update(inline_helpers or {})
     repo = repo or REPO
     unit = load_unit(unit_name)
     if extra_helpers:
